@@ -447,6 +447,12 @@ class IndexProfile(OwnProfile):
         c["kind_weights"] = {"ir": 0.4, "mod": 0.6, "sec": 1.0, "bi": 2.0, "cb": 2.5, "db": 2.0, "px": 0.2, "sym": 0.6}
         c["p_addr_none"] = r.choice([0.1, 0.25])
         c["p_boundary"] = r.choice([0.0, 0.1, 0.2])
+        # dense worlds (few containers, many members: incremental index replay needs more
+        # members than pending events) vs. scattered ones
+        if r.random() < 0.6:
+            c["max_ir"], c["max_mod"], c["max_sec"] = 1, r.choice([1, 2]), r.choice([1, 2, 3])
+            c["p_ctor_parent"] = r.choice([0.8, 0.95])
+            c["p_detach"] = 0.08
         c["addr_hi"] = r.choice([12, 40])
         c["size_hi"] = r.choice([6, 12])
         c["off_hi"] = r.choice([8, 14])
@@ -752,6 +758,13 @@ class PersistProfile(OwnProfile):
         if op["op"] in ("load", "restart") and out is not None:
             w.counters["probe:gen_after_load"] = 1
             w.mut_after_load = 0
+            # the scheduler places first reads (lazy decodes) of loaded tables: some right
+            # away, the rest whenever the aux family comes up
+            r = w.rs.lookups
+            cands = [(c, nme) for c in w.m.by_kind("ir", "mod") for nme, t in w.m.nodes[c].a["aux"].items() if t.get("raw") is not None and t["state"] == "untouched"]
+            for c, nme in cands:
+                if r.random() < w.cfg.get("p_read_after_load", 0.3) and len(w.queue) < 4:
+                    w.queue.append({"op": "aux_read", "c": c, "name": nme})
         elif op["op"] == "save":
             if getattr(w, "mut_after_load", 0) > 0 and w.counters["probe:gen_after_load"]:
                 w.counters["probe:save_after_mutation_after_load"] += 1
@@ -807,10 +820,20 @@ class C02(PersistProfile):
     def nontrivial(self, w):
         return w.counters["probe:saves"] > 0 and w.counters["probe:peer_files"] > 0 and w.counters["probe:loads_checked"] > 0
 
+    def extra_coverage(self, results, tot):
+        d = PersistProfile.extra_coverage(self, results, tot)
+        sw = {}
+        for k, v in tot.items():
+            if k.startswith("enum:"):
+                _, which, num = k.split(":")
+                sw.setdefault(which, {})[int(num)] = v
+        d["schema_enum_constants_swept_by_peer"] = {w_: {"distinct_constants": len(c), "loads": sum(c.values())} for w_, c in sorted(sw.items())}
+        return d
+
 
 @profile
 class C09(PersistProfile):
-    runs_quick = 7000
+    runs_quick = 5000
     runs_thorough = 200000
     prop = "C09"
     base = dict(PERSIST_BASE, peer=1.5, aux=3.0, cfg=3.0, se=3.0)
